@@ -987,7 +987,7 @@ func c39forgedBlocks(thorough bool) []*c39forged {
 			}
 			return append(c39block(count, fields...), trailing...)
 		}
-		counts := []uint32{0, n, n + 1, n - 1, 1024, 1025, 1 << 16, 0xffffffff}
+		counts := []uint32{0, n, n + 1, n - 1, 1024, 1025, 1 << 16} // not 2^32-1: harmless today (> MaxNumHeaders), fatal for the process if that check is ever lost
 		for _, cnt := range counts {
 			for _, upper := range []bool{false, true} {
 				out = append(out, &c39forged{desc: fmt.Sprintf("base%d count=%d upper=%v", bi, cnt, upper), class: map[bool]string{true: "none", false: "count"}[cnt == n],
